@@ -18,4 +18,12 @@ PROPS = {
         ],
         "assumptions": COMMON_ASSUME + ["minReadySeconds is 0 at every call site, so availability = Ready condition"],
     },
+    "C05": {
+        "streams": [("select_current", 4000, 80000)],
+        "trusted_base": [
+            "model of selectCurrentReplicaSet / IsCanaryDeployment{Ended,Paused,Valid,Failed} (lean/EdsModel/EdsCtl.lean, CanaryPred.lean) written by hand from controller.go / utils.go; tied by the select_current stream (exact instants: duration and noRestartsDuration at -1ns/0/+1ns)",
+            "time.Time.Sub saturation is not modelled (differences stay far below 2^63 ns)",
+        ],
+        "assumptions": COMMON_ASSUME + ["spec passed the CRD schema (validationMode is auto or manual) and ValidateExtendedDaemonSetSpec (no duration in manual mode), as Reconcile guarantees before selecting"],
+    },
 }
